@@ -84,6 +84,11 @@ pub struct RocksDBStateMachine {
     last_applied_term: AtomicU64,
     last_snapshot_metadata: RwLock<Option<SnapshotMetadata>>,
 
+    // Makes "data written + applied index advanced" one step for scans: apply_chunk holds it
+    // for writing around both, scan_prefix holds it for reading while it pins a RocksDB
+    // snapshot and reads the revision that belongs to it.
+    publish_lock: RwLock<()>,
+
     // Lease management for automatic key expiration
     // TtlLease is thread-safe internally (uses DashMap + Mutex)
     // Injected by NodeBuilder after construction
@@ -137,6 +142,7 @@ impl RocksDBStateMachine {
             last_applied_index: AtomicU64::new(last_applied_index),
             last_applied_term: AtomicU64::new(last_applied_term),
             last_snapshot_metadata: RwLock::new(last_snapshot_metadata),
+            publish_lock: RwLock::new(()),
             lease: None,
         })
     }
@@ -155,6 +161,7 @@ impl RocksDBStateMachine {
             last_applied_index: AtomicU64::new(last_applied_index),
             last_applied_term: AtomicU64::new(last_applied_term),
             last_snapshot_metadata: RwLock::new(last_snapshot_metadata),
+            publish_lock: RwLock::new(()),
             lease: None,
         })
     }
@@ -660,7 +667,15 @@ impl RocksDBStateMachine {
         let cf = db
             .cf_handle(STATE_MACHINE_CF)
             .ok_or_else(|| StorageError::DbError("STATE_MACHINE_CF not found".into()))?;
-        let iter = db.iterator_cf_opt(&cf, opts, IteratorMode::From(prefix, Direction::Forward));
+        // Entries and revision must describe the same state: pin a snapshot and read the
+        // applied index while no apply is between its data write and its index update. The
+        // iteration itself runs on the snapshot, outside the lock.
+        let (snapshot, revision) = {
+            let _published = self.publish_lock.read();
+            (db.snapshot(), self.last_applied_index.load(Ordering::SeqCst))
+        };
+        let iter =
+            snapshot.iterator_cf_opt(&cf, opts, IteratorMode::From(prefix, Direction::Forward));
 
         let mut entries = Vec::new();
         for item in iter {
@@ -673,7 +688,6 @@ impl RocksDBStateMachine {
         #[cfg(feature = "verif-hooks")]
         crate::verif_exports::crash_point("sm:scan:after_iter");
 
-        let revision = self.last_applied_index.load(Ordering::SeqCst);
         Ok(ScanResult { entries, revision })
     }
 
@@ -905,12 +919,16 @@ impl StateMachine for RocksDBStateMachine {
             batch.put_cf(&meta_cf, LAST_APPLIED_TERM_KEY, highest.term.to_be_bytes());
         }
 
-        db.write_wbwi(&batch).map_err(|e| StorageError::DbError(e.to_string()))?;
-        #[cfg(feature = "verif-hooks")]
-        crate::verif_exports::crash_point("sm:apply:after_write");
+        {
+            // one step for scans: see publish_lock
+            let _publishing = self.publish_lock.write();
+            db.write_wbwi(&batch).map_err(|e| StorageError::DbError(e.to_string()))?;
+            #[cfg(feature = "verif-hooks")]
+            crate::verif_exports::crash_point("sm:apply:after_write");
 
-        if let Some(highest) = highest_index_entry {
-            self.update_last_applied(highest);
+            if let Some(highest) = highest_index_entry {
+                self.update_last_applied(highest);
+            }
         }
 
         Ok(results)
